@@ -60,8 +60,12 @@ Ltac inv H := inversion H; subst; clear H.
 Definition un_fin (k : ukind) (s : sexpr) (ns : nst) (sc : ost) (tr : list tev) (o : outcome) (r0 : res) : res :=
   match k with
   | URepeat l => rep_done l s ns sc tr o r0
+  | UAllocate => (ONode ns sc OFin, tr, Some o)     (* [stage 5] the completed node keeps its allocator *)
   | _ => un_done k s sc tr o
   end.
+
+(* [stage 5] connect() of e throws: start answers inline, nothing is started *)
+Definition start_thrown (e : sexpr) (en : env) : res := (OFin, sconn e (e_alloc en), Some (OErr ccode)).
 
 (* retry_when: the trigger started for the error [oa] is *)
 Definition rbe_of (b : sexpr) (en : env) (oa : outcome) (cx : nat) : res :=
@@ -274,20 +278,23 @@ Definition leafev_conc (k : bkind) (a b : sexpr) (ns : nst) (sa sb : ost) (id : 
 (* ---- equation lemmas ------------------------------------------------------------------------------ *)
 Lemma start_un k s en cx :
   start (Un k s) en cx =
-  let '(sc, tr, r) := start s (un_env k en) cx in
+  if sthrows (Un k s) then start_thrown (Un k s) en else
+  let '(sc, tr0, r) := start s (un_env k en) cx in
   match r with
-  | Some o => un_fin k s (un_nst k en) sc tr o (sc, tr, r)
-  | None => (ONode (un_nst k en) sc OFin, tr, None)
+  | Some o => un_fin k s (un_nst k en) sc (un_pre k en ++ tr0) o (sc, tr0, r)
+  | None => (ONode (un_nst k en) sc OFin, un_pre k en ++ tr0, None)
   end.
 Proof. destruct k; reflexivity. Qed.
 
-Lemma start_bin_seq k a b en cx : is_seq k = true -> start (Bin k a b) en cx = start_seq k a b en cx.
+Lemma start_bin_seq k a b en cx : is_seq k = true ->
+  start (Bin k a b) en cx = if sthrows (Bin k a b) then start_thrown (Bin k a b) en else start_seq k a b en cx.
 Proof. destruct k; intros H; try discriminate H; reflexivity. Qed.
 
-Lemma start_bin_conc k a b en cx : is_seq k = false -> start (Bin k a b) en cx = start_conc k a b en cx.
+Lemma start_bin_conc k a b en cx : is_seq k = false ->
+  start (Bin k a b) en cx = if sthrows (Bin k a b) then start_thrown (Bin k a b) en else start_conc k a b en cx.
 Proof.
   intros H.
-  assert (E : start (Bin k a b) en cx =
+  assert (E : start (Bin k a b) en cx = if sthrows (Bin k a b) then start_thrown (Bin k a b) en else
     let ns0 := conc_ns0 en in
     let '(sa, tra, ra) := conc_reap k a (start a (env_own en (own_stop ns0)) cx) in
     let '(ns1, _, _) :=
@@ -315,7 +322,8 @@ Proof.
         end
     end).
   { destruct k; try discriminate H; reflexivity. }
-  rewrite E. clear E. unfold start_conc, conc_b_done. cbv zeta.
+  rewrite E. clear E. destruct (sthrows (Bin k a b)); [reflexivity|].
+  unfold start_conc, conc_b_done. cbv zeta.
   change (own_stop (conc_ns0 en)) with (e_stopped en).
   destruct (conc_reap k a (start a (env_own en (e_stopped en)) cx)) as [[sa tra] ra].
   destruct (match ra with Some oa => conc_child_done k (conc_ns0 en) false oa | None => (conc_ns0 en, false, None) end)
@@ -703,6 +711,7 @@ Definition evok (e : sexpr) (sm : qsum) (cx : nat) (t : tev) : Prop :=
   | TSchedDtor c => In c (map snd (scheds e))
   | TLeak _ => False
   | TCall _ _ | TPred _ | TGate _ => True
+  | TAlloc _ | TFree _ => True
   end.
 Definition trok (e : sexpr) (sm : qsum) (cx : nat) (tr : list tev) : Prop := Forall (evok e sm cx) tr.
 
@@ -739,15 +748,73 @@ Qed.
 Lemma dtor_ok e : forall sm cx st, trok e sm cx (dtor e st).
 Proof.
   induction e; intros sm cx st; destruct st; simpl; try apply trok_nil;
-    try (repeat constructor; simpl; auto; fail).
-  - apply trok_un. apply IHe.
-  - apply trok_un. apply IHe.
+    try (repeat constructor; simpl; auto; fail);
+    try (destruct k; simpl; try apply trok_nil; try (apply trok_un; apply IHe);
+         try (apply trok_app; [apply trok_un; apply IHe|repeat constructor]); fail).
   - destruct (dtor_b_first k); apply trok_app;
       solve [apply trok_bin_a; apply IHe1 | apply trok_bin_b; apply IHe2].
   - destruct (dtor_b_first k); apply trok_app;
       solve [apply trok_bin_a; apply IHe1 | apply trok_bin_b; apply IHe2].
 Qed.
 #[global] Hint Resolve dtor_ok : calc.
+
+(* ---- [stage 5] blocks: the allocator visible at an allocate node ------------------------------------ *)
+Definition un_al (k : ukind) (al : nat) : nat := match k with UWithAlloc a => a | _ => al end.
+(* [alloc_at e al a]: e contains an allocate node at which get_allocator answers a, when it answers al at e's
+   receiver: the fold of the with_allocator overrides along the path to that node *)
+Inductive alloc_at : sexpr -> nat -> nat -> Prop :=
+| aa_here s al : alloc_at (Un UAllocate s) al al
+| aa_un k s al a : alloc_at s (un_al k al) a -> alloc_at (Un k s) al a
+| aa_bin_a k a b al x : alloc_at a al x -> alloc_at (Bin k a b) al x
+| aa_bin_b k a b al x : alloc_at b al x -> alloc_at (Bin k a b) al x.
+(* a block event of the allocator visible at one of e's allocate nodes *)
+Definition aev (e : sexpr) (al : nat) (t : tev) : Prop :=
+  match t with TAlloc a | TFree a => alloc_at e al a | _ => False end.
+Lemma aev_un k s al tr : Forall (aev s (un_al k al)) tr -> Forall (aev (Un k s) al) tr.
+Proof. apply Forall_impl. intros t. destruct t; simpl; try tauto; apply aa_un. Qed.
+Lemma aev_bin_a k a b al tr : Forall (aev a al) tr -> Forall (aev (Bin k a b) al) tr.
+Proof. apply Forall_impl. intros t. destruct t; simpl; try tauto; apply aa_bin_a. Qed.
+Lemma aev_bin_b k a b al tr : Forall (aev b al) tr -> Forall (aev (Bin k a b) al) tr.
+Proof. apply Forall_impl. intros t. destruct t; simpl; try tauto; apply aa_bin_b. Qed.
+
+Lemma unw_aev e : forall al, Forall (aev e al) (unw e al).
+Proof.
+  induction e; intros al; simpl; try constructor.
+  - destruct k; try (apply (aev_un _ e al); apply IHe).
+    apply Forall_app. split; [apply (aev_un UAllocate e al); apply IHe|]. repeat constructor.
+  - destruct k; try (apply aev_bin_a; apply IHe1); try constructor;
+      apply Forall_app; split; solve [apply aev_bin_a; apply IHe1|apply aev_bin_b; apply IHe2].
+Qed.
+Lemma conn_aev e : forall al, Forall (aev e al) (fst (conn e al)).
+Proof.
+  induction e; intros al; simpl; try constructor.
+  - destruct k; try (apply (aev_un _ e al); apply IHe).
+    pose proof (IHe al) as Hc. destruct (conn e al) as [tr th]. simpl in *.
+    constructor; [simpl; constructor|]. apply Forall_app. split; [apply (aev_un UAllocate e al); exact Hc|].
+    destruct th; repeat constructor.
+  - pose proof (IHe1 al) as H1. pose proof (IHe2 al) as H2.
+    pose proof (unw_aev e1 al) as U1. pose proof (unw_aev e2 al) as U2.
+    apply (aev_bin_a k e1 e2) in H1. apply (aev_bin_b k e1 e2) in H2.
+    apply (aev_bin_a k e1 e2) in U1. apply (aev_bin_b k e1 e2) in U2.
+    destruct k; try exact H1; try constructor;
+      destruct (conn e1 al) as [tra tha]; destruct (conn e2 al) as [trb thb]; simpl in *;
+      destruct tha, thb; simpl; repeat (apply Forall_app; split); assumption.
+Qed.
+Lemma sconn_aev e al : Forall (aev e al) (sconn e al).
+Proof.
+  destruct e; try apply conn_aev. destruct k; try apply conn_aev.
+  simpl. pose proof (conn_aev (Bin BWhenAll e1 e2) al) as H. simpl in H.
+  eapply Forall_impl; [|exact H]. intros t. destruct t; simpl; try tauto;
+    intros Ha; inversion Ha; subst; [apply aa_bin_a|apply aa_bin_b|apply aa_bin_a|apply aa_bin_b]; assumption.
+Qed.
+
+Lemma trok_aev e sm cx al tr : Forall (aev e al) tr -> trok e sm cx tr.
+Proof. apply Forall_impl. intros t. destruct t; simpl; tauto. Qed.
+Lemma trok_sconn e sm cx al : trok e sm cx (sconn e al).
+Proof. eapply trok_aev. apply sconn_aev. Qed.
+Lemma trok_un_pre k s sm cx en : trok (Un k s) sm cx (un_pre k en).
+Proof. destruct k; repeat constructor. Qed.
+#[global] Hint Resolve trok_sconn trok_un_pre : calc.
 
 Definition StartQ (e : sexpr) : Prop := forall en cx st tr r,
   start e en cx = (st, tr, r) -> good_env en -> qwf e (summ en) st /\ trok e (summ en) cx tr.
@@ -833,14 +900,15 @@ Proof.
 Qed.
 
 Lemma un_fin_q k s sm cx ns sc tr o sc0 tr0 rr0 st tr' r :
-  nok sm ns -> trok (Un k s) sm cx tr ->
+  nok sm ns -> qwf s (un_sum k sm) sc -> trok (Un k s) sm cx tr ->
   trok (Un k s) sm cx tr0 -> qwf s (un_sum k sm) sc0 ->
   un_fin k s ns sc tr o (sc0, tr0, rr0) = (st, tr', r) ->
   qwf (Un k s) sm st /\ trok (Un k s) sm cx tr'.
 Proof.
-  intros Hn Ht Ht0 Hq0 H. unfold un_fin in H.
+  intros Hn Hqc Ht Ht0 Hq0 H. unfold un_fin in H.
   destruct k; try (eapply un_done_q; eassumption).
-  eapply rep_done_q; [exact Hn|exact Ht|exact Ht0|exact Hq0|exact H].
+  - eapply rep_done_q; [exact Hn|exact Ht|exact Ht0|exact Hq0|exact H].
+  - inv H. rewrite qwf_un. auto.
 Qed.
 
 (* ---- sequential nodes ----------------------------------------------------------------------------- *)
@@ -1232,7 +1300,7 @@ Qed.
 
 Lemma all_q e : StartQ e /\ StopQ e /\ LeafevQ e.
 Proof.
-  induction e as [v|x| |n|id|id|id c|id lvl| |k s IH|k a IHa b IHb].
+  induction e as [v|x| |n|id|id|id c|id lvl| |idc|k s IH|k a IHa b IHb].
   - (* Just *)
     split; [|split].
     + intros en cx st tr r H Hg. simpl in H. inv H. auto with calc.
@@ -1303,14 +1371,21 @@ Proof.
     + intros en cx st tr r H Hg. simpl in H. inv H. auto with calc.
     + intros sm cx st st' tr r H Hsp Hq. destruct st; simpl in H; inv H; auto with calc.
     + intros sm cx st i o st' tr r hit H Hq. destruct st; simpl in H; inv H; auto with calc.
+  - (* LeafC *)
+    split; [|split].
+    + intros en cx st tr r H Hg. simpl in H. inv H. auto with calc.
+    + intros sm cx st st' tr r H Hsp Hq. destruct st; simpl in H; inv H; auto with calc.
+    + intros sm cx st i o st' tr r hit H Hq. destruct st; simpl in H; inv H; auto with calc.
   - (* Un *)
     destruct IH as (Ss & Ps & Ls). split; [|split].
     + intros en cx st tr r H Hg. rewrite start_un in H.
+      destruct (sthrows (Un k s)); [unfold start_thrown in H; injection H as <- <- <-; split; [apply qwf_fin|exact (trok_sconn (Un k s) (summ en) cx (e_alloc en))]|].
       destruct (start s (un_env k en) cx) as [[sc tr1] r1] eqn:Hs.
       destruct (Ss _ _ _ _ _ Hs (good_un k en Hg)) as [Hq Ht]. rewrite summ_un in Hq, Ht.
       apply trok_un in Ht.
+      assert (Htp : trok (Un k s) (summ en) cx (un_pre k en ++ tr1)) by auto with calc.
       destruct r1 as [o1|].
-      * eapply un_fin_q; [apply nok_un_nst; exact Hg|exact Ht|exact Ht|exact Hq|exact H].
+      * eapply un_fin_q; [apply nok_un_nst; exact Hg|exact Hq|exact Htp|exact Ht|exact Hq|exact H].
       * inv H. rewrite qwf_un. split; auto. split; [apply nok_un_nst; exact Hg|exact Hq].
     + intros sm cx st st' tr r H Hsp Hq.
       destruct st as [|c sn|ns sc sb|sa sb|vv];
@@ -1339,7 +1414,7 @@ Proof.
            destruct Hn2 as [Hs2 Hg2].
            destruct (Ss _ _ _ _ _ H0 (good_un k _ Hg2)) as [Hq0 Ht0]. rewrite summ_un, Hs2 in Hq0, Ht0.
            apply trok_un in Ht0.
-           eapply un_fin_q; [split; eassumption|exact Ht|exact Ht0|exact Hq0|exact H].
+           eapply un_fin_q; [split; eassumption|exact Hq'|exact Ht|exact Ht0|exact Hq0|exact H].
         -- inv H. rewrite qwf_un. auto.
     + intros sm cx st i o st' tr r hit H Hq.
       destruct st as [|c sn|ns sc sb|sa sb|vv];
@@ -1358,7 +1433,7 @@ Proof.
         destruct Hn as [Hs2 Hg2].
         destruct (Ss _ _ _ _ _ H0 (good_un k _ Hg2)) as [Hq0 Ht0]. rewrite summ_un, Hs2 in Hq0, Ht0.
         apply trok_un in Ht0.
-        eapply un_fin_q; [split; eassumption|exact Ht|exact Ht0|exact Hq0|exact H].
+        eapply un_fin_q; [split; eassumption|exact Hq'|exact Ht|exact Ht0|exact Hq0|exact H].
       * destruct (un_own k && fired (e_ss (n_env ns)) tr1)%bool eqn:Hf.
         2:{ inv H. rewrite qwf_un. auto. }
         apply andb_true_iff in Hf. destruct Hf as [Hown _].
@@ -1383,7 +1458,8 @@ Proof.
     destruct IHa as (Sa & Pa & La). destruct IHb as (Sb & Pb & Lb).
     destruct (is_seq k) eqn:Hk.
     + split; [|split].
-      * intros en cx st tr r H Hg. rewrite start_bin_seq in H by exact Hk. unfold start_seq in H.
+      * intros en cx st tr r H Hg. rewrite start_bin_seq in H by exact Hk.
+        destruct (sthrows (Bin k a b)); [unfold start_thrown in H; injection H as <- <- <-; split; [apply qwf_fin|exact (trok_sconn (Bin k a b) (summ en) cx (e_alloc en))]|]. unfold start_seq in H.
         destruct (start a en cx) as [[sa tra] ra] eqn:Ha.
         destruct (Sa _ _ _ _ _ Ha Hg) as [Hqa Hta].
         rewrite <- (bin_sum_seq k (summ en) Hk) in Hqa, Hta. apply (trok_bin_a k a b) in Hta.
@@ -1493,6 +1569,7 @@ Proof.
            ++ inv H. rewrite qwf_bin. auto.
     + split; [|split].
       * intros en cx st tr r H Hg. rewrite start_bin_conc in H by exact Hk.
+        destruct (sthrows (Bin k a b)); [unfold start_thrown in H; injection H as <- <- <-; split; [apply qwf_fin|exact (trok_sconn (Bin k a b) (summ en) cx (e_alloc en))]|].
         eapply start_conc_q; [..|exact H|exact Hg]; eauto with calc.
       * intros sm cx st st' tr r H Hsp Hq.
         destruct st as [|c sn|ns sa sb|sa sb|vv];
@@ -1538,6 +1615,7 @@ Definition xokc (e : sexpr) (c : nat) (x : xev) : Prop :=
   | XRoot _ n cx => n = O /\ cx = c
   | XSkip => True
   | XRootDtor => True
+  | XConnectThrow => True
   end.
 Definition xok (e : sexpr) (x : xev) : Prop := exists c, xokc e c x.
 
@@ -1549,7 +1627,7 @@ Definition IQ (e : sexpr) (rs : run_state) : Prop :=
 Lemma no_root_leak e l : Forall (xok e) l -> filter is_root_leak l = [].
 Proof.
   induction 1 as [|x l Hx Hl IH]; simpl; [reflexivity|].
-  destruct x as [t| | |]; simpl; auto. destruct t; simpl; auto. destruct root; [|auto].
+  destruct x as [t| | | |]; simpl; auto. destruct t; simpl; auto. destruct root; [|auto].
   destruct Hx as [c Hx]. contradiction Hx.
 Qed.
 
@@ -1602,7 +1680,12 @@ Proof. unfold good_env. simpl. discriminate. Qed.
 Lemma run_start_q e pre :
   IQ e (run_start e pre) /\ Forall (xokc e 0%nat) (r_tr (run_start e pre)).
 Proof.
-  unfold run_start. destruct (start e (root_env pre) 0) as [[st tr] r] eqn:H.
+  unfold run_start. destruct (cthrows e).
+  { assert (Hc : Forall (xokc e 0%nat) (map XT (fst (conn e 0)) ++ [XConnectThrow])).
+    { apply Forall_app. split; [|repeat constructor]. apply Forall_map_XT.
+      eapply trok_aev. apply conn_aev. }
+    split; [|exact Hc]. split; [apply qwf_fin|]. split; [eapply xokc_xok; exact Hc|]. intros c i []. }
+  destruct (start e (root_env pre) 0) as [[st tr] r] eqn:H.
   destruct (start_q e _ _ _ _ _ H (good_root pre)) as [Hq Ht].
   change (summ (root_env pre)) with root_sum in Hq, Ht.
   assert (I0 : IQ e {| r_st := OFin; r_stopped := pre; r_roots := 0; r_tr := []; r_queue := [] |}).
@@ -1715,11 +1798,14 @@ Proof.
   unfold trok in Hd. rewrite Forall_forall in Hd. exact (Hd _ Ht).
 Qed.
 
-Definition is_dtor_ev (t : tev) : Prop := match t with TLeafDtor _ | TSchedDtor _ => True | _ => False end.
+Definition is_dtor_ev (t : tev) : Prop :=
+  match t with TLeafDtor _ | TSchedDtor _ | TFree _ => True | _ => False end.
 Lemma dtor_only e : forall st, Forall is_dtor_ev (dtor e st).
 Proof.
-  induction e; intros st; destruct st; simpl; try constructor; simpl; auto;
-    destruct (dtor_b_first k); apply Forall_app; auto.
+  induction e; intros st; destruct st; simpl; try (constructor; simpl; auto; fail);
+    try (destruct k; simpl; try constructor; auto; try (apply Forall_app; split; [auto|repeat constructor]); fail).
+  - destruct (dtor_b_first k); apply Forall_app; auto.
+  - destruct (dtor_b_first k); apply Forall_app; auto.
 Qed.
 
 (* leaf starts and root completions of [exec] are those of the script part *)
@@ -1758,7 +1844,7 @@ Definition on_ctx (c : nat) (x : xev) : Prop :=
   | _ => True
   end.
 Lemma xokc_on_ctx e c x : xokc e c x -> on_ctx c x.
-Proof. destruct x as [t| | |]; simpl; try tauto. destruct t; simpl; tauto. Qed.
+Proof. destruct x as [t| | | |]; simpl; try tauto. destruct t; simpl; tauto. Qed.
 
 (* call level *)
 Theorem start_ctx e en cx st tr r id s sp a b sch cx' :
@@ -1839,9 +1925,12 @@ Proof.
   reflexivity.
 Qed.
 
-Lemma finally_start_none s b id en cx : hop b id -> snd (start (Bin BFinally s b) en cx) = None.
+Lemma finally_start_none s b id en cx :
+  hop b id -> cthrows s = false -> snd (start (Bin BFinally s b) en cx) = None.
 Proof.
-  intros Hh. rewrite start_bin_seq by reflexivity. unfold start_seq.
+  intros Hh Hc. rewrite start_bin_seq by reflexivity.
+  replace (sthrows (Bin BFinally s b)) with false by (unfold sthrows; simpl; rewrite Hc; reflexivity).
+  unfold start_seq.
   destruct (start s en cx) as [[sa tra] ra]. destruct ra; [|reflexivity].
   eapply finally_a_done. exact Hh.
 Qed.
@@ -1893,7 +1982,10 @@ Proof.
   { apply (run_invariant_s e pre (fun rs => IQ e rs /\ forall o n cx, In (XRoot o n cx) (r_tr rs) -> cx = c)
                             (fun ev => forall o cx, ev <> EvLeaf id o cx)); [| |exact Hsc].
     - split; [apply run_start_q|]. unfold run_start.
-      pose proof (finally_start_none s b id (root_env pre) 0 Hh) as Hn. fold e in Hn.
+      destruct (cthrows e) eqn:Hct.
+      { simpl. intros o n cx Hin. apply in_app_or in Hin. destruct Hin as [Hin|[Hin|[]]]; [|discriminate].
+        apply in_map_iff in Hin. destruct Hin as (t & E & _). discriminate. }
+      pose proof (finally_start_none s b id (root_env pre) 0 Hh Hct) as Hn. fold e in Hn.
       destruct (start e (root_env pre) 0) as [[st tr] r]. simpl in Hn. subst r. simpl.
       intros o n cx Hin. apply in_map_iff in Hin. destruct Hin as (t & E & _). discriminate.
     - intros rs ev Hev [HI Hroots]. destruct (run_ev_q e rs ev HI) as (HI' & _ & Hk).
